@@ -1726,10 +1726,11 @@ func runC14(c *Ctx) int {
 						cs.Origin = fmt.Sprintf("random/%d/seed=%d", i-nGrid, jobSeeds[k])
 					}
 					results[k] = c14RunCase(cs, wdir, i == 4 || (i >= nGrid && (i-nGrid)%sampleEvery == 0))
+					guardProgress.Add(1)
 				}
 			}(wdirs[w])
 		}
-		wg.Wait()
+		guardedWait(&wg)
 		for k := range results {
 			res := &results[k]
 			run.Eval(1)
